@@ -36,7 +36,11 @@ class ChainFinder(object):
                 h = self.parent_lookup.get(h)
                 if h is None:
                     break
-                new_hashes.discard(h)
+                if h in new_hashes:
+                    # h gets its own turn later; every tree waiting on it
+                    # (this one included) is extended then
+                    path.append(h)
+                    break
                 preceding_path = self.trees_from_bottom.get(h)
                 if preceding_path:
                     del self.trees_from_bottom[h]
